@@ -23,7 +23,6 @@ from ..x64.sem import BV, Unsupported
 PID = "C13"
 HEADER = 16
 CLASSES = ("negative", "wrap", "huge-nonwrapping", "valid")
-RUNTIME_REFUSES_FROM = models.REFUSE_FROM
 
 _PROGS = {}
 _CTX = {}
@@ -53,7 +52,6 @@ def kernel_list(tier):
             ("di32", "Int32", 4, "new_default", None, "new_default"),
             ("du8", "UInt8", 1, "new_default", None, "new_default"),
             ("ft12", "(Int32, Int64)", 16, "fill", "(1i32, 2)", "fill"),
-            ("ft40", "(Int64, Int64, Int64, Int64, Int64)", 40, "fill", "(1, 2, 3, 4, 5)", "fill"),
         ]
     return [dict(name=k[0], ty=k[1], elem=k[2], ctor=k[3], val=k[4], family=k[5]) for k in ks]
 
@@ -70,8 +68,16 @@ def source(kernels):
     out.append("fn main() {")
     out.append("  let which = arg(0i32);")
     out.append("  let n = id(arg(1i32));")
+    ones = {"UInt8": "255u8", "Bool": "true", "Int32": "(-1i32)", "Int64": "(-1)", "Float64": "1.5", "Float32": "1.5f32", "Char": "'z'"}
     for i, k in enumerate(kernels):
-        out.append("  if which == %d { let a = k%s(n); println(\"size=${a.size()}\"); }" % (i, k["name"]))
+        one = k["val"] if k["val"] not in (None, "()") else ones.get(k["ty"])
+        probe = ""
+        if one is not None and k["elem"] > 0:
+            # a second object allocated right after the first one: writing every element of the
+            # first must not reach it (observable evidence of an allocation that is too small)
+            probe = (" if n > 0 && n <= 100000 { let b = k%s(n); let mut j = 0; while j < n { a(j) = %s; j = j + 1; } "
+                     "println(\"size2=${b.size()}\"); }" % (k["name"], one))
+        out.append("  if which == %d { let a = k%s(n); println(\"size=${a.size()}\");%s }" % (i, k["name"], probe))
     out.append("}")
     return "\n".join(out) + "\n"
 
@@ -97,8 +103,8 @@ def class_cond(n, elem, cls):
     if cls == "wrap":
         return z3.And(nonneg, z3.UGE(w, BV(1 << 63, 128)))
     if cls == "huge-nonwrapping":
-        return z3.And(nonneg, z3.ULT(w, BV(1 << 63, 128)), z3.UGE(w, BV(RUNTIME_REFUSES_FROM, 128)))
-    return z3.And(nonneg, z3.ULT(w, BV(RUNTIME_REFUSES_FROM, 128)))
+        return z3.And(nonneg, z3.ULT(w, BV(1 << 63, 128)), z3.UGE(w, BV(_CTX["refuse"], 128)))
+    return z3.And(nonneg, z3.ULT(w, BV(_CTX["refuse"], 128)))
 
 
 def want_size(n, elem):
@@ -108,7 +114,7 @@ def want_size(n, elem):
 
 def make_env(n, small=None):
     env = sem.Env(_CTX["layout"])
-    models.install_alloc(env, _CTX["traps"]["OOM"])
+    models.install_alloc(env, _CTX["traps"]["OOM"], _CTX["refuse"])
     env.init_regs = {"rdi": n}
     if small is not None:
         env.assume(z3.And(n >= BV(0, 64), n <= BV(small, 64)), "0 <= n <= %d (zero-initialisation family only)" % small)
@@ -146,7 +152,7 @@ def bad_conditions(p, n, elem):
                 continue                       # the runtime ended the process with the OOM trap
             obj = res
             # sizes from 2^40 on are refused by the runtime (assumption): only smaller requests must be exact
-            ok = z3.Or(z3.UGE(size, BV(RUNTIME_REFUSES_FROM, 64)),
+            ok = z3.Or(z3.UGE(size, BV(_CTX["refuse"], 64)),
                        z3.And(n >= BV(0, 64), z3.ZeroExt(64, size) == want))
             out.append(("slow-path-size", z3.Not(ok)))
     if t.kind in ("return", "loopcut"):
@@ -165,6 +171,50 @@ def group_of(p):
     if not al:
         return "noalloc"
     return "inline" if al[0][0] == "alloc_fast" else "slowpath"
+
+
+def class_candidates(paths, n, elem, base, verd, tag=""):
+    """the negated assertions, one query per length class x allocation kind.
+    -> (query records, candidates [{class, group, n, why}])"""
+    queries, cands = [], []
+    bads = [(p, bad_conditions(p, n, elem)) for p in paths]
+    for cls in CLASSES:
+        cc = class_cond(n, elem, cls)
+        for grp in ("inline", "slowpath", "noalloc"):
+            alts, small = [], []
+            for p, bl in bads:
+                if group_of(p) != grp:
+                    continue
+                for name, c in bl:
+                    alts.append(z3.And(p.pc(), c))
+                for e in alloc_events(p):
+                    if e[0] == "alloc_slow":
+                        small.append(z3.ULT(e[1], BV(1 << 20, 64)))
+            if not alts:
+                continue
+            r, m = verd.check("%s%s-%s" % (tag, cls, grp), base + [cc, z3.Or(*alts)])
+            queries.append({"class": cls, "group": grp, "result": r})
+            if r != "sat":
+                continue
+            if small:
+                # a witness whose slow-path request is small is served by the real runtime
+                # whatever the heap state: preferred for the replay
+                r2, m2 = verd.check("%s%s-%s-small" % (tag, cls, grp), base + [cc, z3.Or(*alts)] + small, cross=False)
+                if r2 == "sat":
+                    m = m2
+            nv = sem.model_int(m, n, 64)
+            why = []
+            for p, bl in bads:
+                if group_of(p) != grp or not z3.is_true(m.eval(p.pc(), model_completion=True)):
+                    continue
+                for name, c in bl:
+                    if z3.is_true(m.eval(c, model_completion=True)):
+                        d = name
+                        for e in alloc_events(p):
+                            d += " (requested %d bytes)" % m.eval(e[2] if e[0] == "alloc_fast" else e[1], model_completion=True).as_long()
+                        why.append(d)
+            cands.append({"class": cls, "group": grp, "n": nv, "why": sorted(set(why))})
+    return queries, cands
 
 
 def analyse(job):
@@ -196,42 +246,15 @@ def analyse(job):
             res["terminals"][key] = res["terminals"].get(key, 0) + 1
         base = list(env.assumptions)
         # ---- the verdict queries, per length class and allocation kind
-        bads = [(p, bad_conditions(p, n, k["elem"])) for p in paths]
-        for cls in CLASSES:
-            cc = class_cond(n, k["elem"], cls)
-            for grp in ("inline", "slowpath", "noalloc"):
-                alts = []
-                for p, bl in bads:
-                    if group_of(p) != grp:
-                        continue
-                    for name, c in bl:
-                        alts.append(z3.And(p.pc(), c))
-                if not alts:
-                    continue
-                r, m = verd.check("%s-%s" % (cls, grp), base + [cc, z3.Or(*alts)])
-                if r == "unknown":
-                    res["queries"].append({"class": cls, "group": grp, "result": "unknown"})
-                    continue
-                res["queries"].append({"class": cls, "group": grp, "result": r})
-                if r == "sat":
-                    nv = sem.model_int(m, n, 64)
-                    why = []
-                    for p, bl in bads:
-                        if group_of(p) != grp or not z3.is_true(m.eval(p.pc(), model_completion=True)):
-                            continue
-                        for name, c in bl:
-                            if z3.is_true(m.eval(c, model_completion=True)):
-                                d = name
-                                for e in alloc_events(p):
-                                    d += " (requested %d bytes)" % m.eval(e[2] if e[0] == "alloc_fast" else e[1], model_completion=True).as_long()
-                                why.append(d)
-                    res["candidates"].append({"class": cls, "group": grp, "n": nv, "why": sorted(set(why))})
+        qs, cands = class_candidates(paths, n, k["elem"], base, verd)
+        res["queries"] += qs
+        res["candidates"] += cands
         # ---- vacuity
         def reach(pred, extra=()):
             alts = [p.pc() for p in paths if pred(p)]
             if not alts:
                 return None
-            r, m = verd.check("vacuity", base + list(extra) + [z3.Or(*alts)])
+            r, m = verd.check("vacuity", base + list(extra) + [z3.Or(*alts)], cross=False)
             return sem.model_int(m, n, 64) if r == "sat" else None
         valid = class_cond(n, k["elem"], "valid")
         res["vacuity"]["inline_allocation_reachable_n"] = reach(
@@ -244,10 +267,10 @@ def analyse(job):
         # ---- inputs for the translator validation: one per trap path kind + valid lengths
         for p in paths:
             if p.term.kind == "trap" and z3.is_bv_value(p.term.trap) and p.term.trap.as_long() != traps["OOM"]:
-                r, m = verd.check("validation-input", base + [p.pc()])
+                r, m = verd.check("validation-input", base + [p.pc()], cross=False)
                 if r == "sat":
                     res["validation_inputs"].append({"n": sem.model_int(m, n, 64), "expect": ["trap", p.term.trap.as_long()]})
-        for v in (0, 1, 2, 3, 7, 100, 1000, 1100, 70000):
+        for v in (0, 1, 3, 100, 1100, 70000):
             outs = set()
             for p in paths:
                 if p.term.kind in ("return", "loopcut"):
@@ -303,6 +326,11 @@ def analyse(job):
                 res["queries"].append({"class": "valid", "group": "zero-init<=%d (%d paths)" % (K, nq), "result": worst})
             res["zero_init_paths"] = len(paths2)
             res["steps"] += ex2.stats["steps"]
+        # ---- real executable: translator validation inputs and replays of the candidates
+        for vi in res["validation_inputs"]:
+            vi["observed"] = list(classify_run(build.run_exe(prog.exe, [kidx, vi["n"]], timeout=60), vi["n"], traps))
+        for c in res["candidates"]:
+            c["observed"] = list(classify_run(build.run_exe(prog.exe, [kidx, c["n"]], timeout=120), c["n"], traps))
     except Unsupported as e:
         res["status"] = "unsupported"
         res["reason"] = str(e)
@@ -325,6 +353,9 @@ def classify_run(out, n, traps):
         return ("refused", st - 101)
     m = re.search(r"size=(-?\d+)", out["stdout"])
     if st == 0 and m:
+        m2 = re.search(r"size2=(-?\d+)", out["stdout"])
+        if m2 and int(m2.group(1)) != int(m.group(1)):
+            return ("corrupt", int(m.group(1)), int(m2.group(1)))
         return ("accepted", int(m.group(1)))
     return ("other", st, out["stdout"][:80], out["stderr"][:120])
 
@@ -344,10 +375,10 @@ def run_check(tier, repo_note=""):
     src = os.path.join(wd, "c13.dora")
     with open(src, "w") as f:
         f.write(source(kernels))
-    _CTX.update(kernels=kernels, traps=traps, layout=build.tld_layout())
+    _CTX.update(kernels=kernels, traps=traps, layout=build.tld_layout(), refuse=build.default_max_heap())
     tb = time.time()
-    for be in build.BACKENDS:
-        _PROGS[be] = build.Program(src, be)
+    for be, pr in zip(build.BACKENDS, build.compile_all([(src, be) for be in build.BACKENDS])):
+        _PROGS[be] = pr
     log("[C13] compiled %d kernels with both back ends in %.1fs" % (len(kernels), time.time() - tb))
     jobs = [(i, be, tier) for i in range(len(kernels)) for be in build.BACKENDS]
     results = par.run_jobs(analyse, jobs)
@@ -356,6 +387,7 @@ def run_check(tier, repo_note=""):
     samples, replays, vac_missing, validated = [], 0, [], 0
     cvc5_checked = 0
     reported = {}
+    unrepro = []
     mnemonics = set()
     for (kidx, be, _), (st, r) in zip(jobs, results):
         k = kernels[kidx]
@@ -375,8 +407,7 @@ def run_check(tier, repo_note=""):
         exe = _PROGS[be].exe
         # translator validation: lifted outcome set must contain the real outcome
         for vi in r["validation_inputs"]:
-            out = build.run_exe(exe, [which, vi["n"]], timeout=60)
-            got = classify_run(out, vi["n"], traps)
+            got = tuple(vi["observed"])
             if "expect" in vi:
                 ok = got == ("refused", vi["expect"][1])
             else:
@@ -386,7 +417,7 @@ def run_check(tier, repo_note=""):
                     ok = True      # no path admits this n with a modelled outcome (cannot validate)
             if not ok:
                 # a wrong-size candidate explains a crash; anything else is an encoding problem
-                if any(c["n"] == vi["n"] for c in r["candidates"]):
+                if r["candidates"]:
                     continue
                 raise Inconclusive("encoding wrong? %s/%s n=%d: real run %s, lifted code predicts %s"
                                    % (k["name"], be, vi["n"], got, vi.get("expect", vi.get("expect_any"))))
@@ -403,11 +434,10 @@ def run_check(tier, repo_note=""):
             reproduced = None
             tried = []
             for c in cs:
-                out = build.run_exe(exe, [which, c["n"]], timeout=120)
-                got = classify_run(out, c["n"], traps)
+                got = tuple(c["observed"])
                 replays += 1
                 tried.append({"n": c["n"], "group": c["group"], "why": c["why"], "observed": list(got)})
-                bad = got[0] in ("crash", "hang") or (got[0] == "accepted" and cls != "valid") or \
+                bad = got[0] in ("crash", "hang", "corrupt") or (got[0] == "accepted" and cls != "valid") or \
                     (got[0] == "accepted" and cls == "valid" and got[1] != c["n"]) or got[0] == "other"
                 if cls == "valid" and c["group"] == "zero-init":
                     bad = False      # needs a content dump to observe; handled as inconclusive below
@@ -415,12 +445,14 @@ def run_check(tier, repo_note=""):
                     reproduced = tried[-1]
             key = "newarray/%s/elem%d/%s" % (be, k["elem"], cls)
             if reproduced is None:
-                raise Inconclusive("counterexample does not reproduce: %s kernel %s: %s" % (key, k["name"], tried))
+                unrepro.append("%s kernel %s: %s" % (key, k["name"], tried))
+                continue
             obs = reproduced["observed"]
             what = ("%s code generator, Array[%s]::%s(n) with n=%d (%s length): %s; real executable: %s"
                     % ("baseline" if be == "cannon" else "optimizing", k["ty"], k["ctor"], reproduced["n"], cls,
                        "; ".join(reproduced["why"]) or "assertion violated",
                        {"crash": "killed by signal %s" % (obs[1] if len(obs) > 1 else "?"), "hang": "hangs",
+                        "corrupt": "writing the elements of the array overwrites the next object (its size reads %s)" % (obs[2] if len(obs) > 2 else "?"),
                         "accepted": "allocation accepted, reports size %s, exit 0" % (obs[1] if len(obs) > 1 else "?"),
                         "other": "unexpected exit %s" % (obs[1:],)}[obs[0]]))
             if key in reported:
@@ -433,7 +465,9 @@ def run_check(tier, repo_note=""):
                             "observed": obs, "why": reproduced["why"]})
     if not analysed:
         raise Inconclusive("no kernel could be analysed: " + "; ".join(unsupported)[:600])
-    if vac_missing:
+    if unrepro and not rep.new:
+        raise Inconclusive("counterexample does not reproduce: " + " | ".join(unrepro[:3]))
+    if vac_missing and not rep.new:
         raise Inconclusive("vacuity witness missing: " + "; ".join(vac_missing))
     # every element-size class must be covered with both back ends (quick never drops units)
     covered = set((r["elem"], r["backend"]) for r in analysed)
@@ -447,10 +481,10 @@ def run_check(tier, repo_note=""):
         samples.append({"kernel": r["kernel"], "backend": r["backend"], "paths": r["paths"], "terminals": r["terminals"],
                         "verdicts": r["queries"][:6], "vacuity": r["vacuity"]})
     env_texts = sem.Env(_CTX["layout"])
-    models.install_alloc(env_texts, traps["OOM"])
+    models.install_alloc(env_texts, traps["OOM"], _CTX["refuse"])
     assumptions = env_texts.assumption_texts + [
         "stack, thread-local block and heap are disjoint; llvm-objdump-14 decodes correctly; instruction semantics of vsym/x64/sem.py",
-        "gc_alloc(size) never returns null: it returns an 8-aligned pointer to `size` usable bytes or ends the process with the OOM trap (dora-runtime/src/gc.rs); requests >= 2^40 bytes always end in that trap (heap < 1 TiB; the routing itself is C13 part b, MIR)",
+        "gc_alloc(size) never returns null: it returns an 8-aligned pointer to `size` usable bytes or ends the process with the OOM trap (dora-runtime/src/gc.rs); requests >= the default max heap size (%d bytes, dora-runtime/src/runtime/flags.rs) always end in that trap; claim and replays are for the default heap configuration (the routing itself is C13 part b, MIR)" % _CTX["refuse"] + "",
         "element sizes by type: Bool/UInt8 1, Int32/Char/Float32 4, Int64/Float64 8, tuples = sum of aligned fields, () 0; header %d bytes from dora-compiler/src/layout.rs" % HEADER,
         "symbolic trip-count loops are cut after the first iteration (stores of that iteration must stay inside the object); complete zero-initialisation proved only for n <= %d" % (3 if tier == "quick" else 6),
         "replay classification: signal / hang / accepted impossible length = reproduced; documented trap = refused",
@@ -466,6 +500,7 @@ def run_check(tier, repo_note=""):
         "verdict_queries": nq, "verdict_queries_undecided": undecided_total, "cvc5_cross_checked": cvc5_checked,
         "vacuity_witnesses": {"%s/%s" % (r["kernel"], r["backend"]): r["vacuity"] for r in analysed},
         "translator_validation_runs": validated,
+        "witnesses_not_reproduced": unrepro,
         "unsupported_kernels": unsupported,
         "mnemonics_executed": sorted(mnemonics),
         "paths": sum(r["paths"] for r in analysed),
@@ -495,7 +530,7 @@ def replay(path):
     out = prog.run([d["which"], d["n"]], timeout=120)
     got = classify_run(out, d["n"], build.trap_kinds())
     print("replay %s n=%d -> %s (recorded: %s)" % (d["backend"], d["n"], got, d["observed"]))
-    bad = got[0] in ("crash", "hang", "other") or (got[0] == "accepted" and d["class"] != "valid")
+    bad = got[0] in ("crash", "hang", "other", "corrupt") or (got[0] == "accepted" and d["class"] != "valid")
     if bad:
         print("VIOLATION property=%s replay=%s" % (PID, path))
         return 1
